@@ -149,12 +149,12 @@ func readSlug(g *arena.Gamma, root string, b []byte) ([]uEntry, int64, int64, er
 			}
 		}
 		e.Name = parts
+		hs += h.Size // the size recorded in every entry header, whatever the entry's type
 		switch h.Typeflag {
 		case tar.TypeReg:
 			e.K = "f"
 			body, _ := io.ReadAll(tr)
 			e.C = g.ContentBack(body)
-			hs += h.Size
 			bs += int64(len(body))
 		case tar.TypeDir:
 			e.K = "d"
